@@ -83,6 +83,22 @@ struct PThrowing {
 	static const char * kind() { return "tracked, copy/move may throw"; }
 };
 
+// a type with class-level allocation functions (a pooled event type): when AnyData keeps it on the heap, the copy has to be
+// obtained from AND returned to the class's own operator new / operator delete, like a value of that type itself would be
+static long g_poolNew = 0, g_poolDelete = 0;
+template <int N>
+struct PPooled {
+	unsigned char b[N];
+	explicit PPooled(int id) { for(int i = 0; i < N; ++i) b[i] = patternByte(id, i); }
+	bool ok(int id) const { for(int i = 0; i < N; ++i) if(b[i] != patternByte(id, i)) return false; return true; }
+	static void * operator new(std::size_t n) { ++g_poolNew; return ::operator new(n); }
+	static void operator delete(void * p) { ++g_poolDelete; ::operator delete(p); }
+	static void * operator new(std::size_t, void * where) noexcept { return where; }      // the placement form is hidden otherwise
+	static void operator delete(void *, void *) noexcept {}
+	static const char * kind() { return "pooled (class-level operator new/delete)"; }
+	static const bool copyable = true, tracked = false;
+};
+
 struct Case { std::string name; void (*fn)(Ctx &, const std::string &); };
 static std::vector<Case> & cases() { static std::vector<Case> c; return c; }
 
@@ -130,6 +146,7 @@ template <size_t Cap, typename P>
 static void testOne(Ctx & ctx, const std::string & nm0) {
 	HarnessScope noFaults;
 	ledger().reset();
+	g_poolNew = g_poolDelete = 0;
 	int cat = ctx.ex.choose(P::copyable ? 3 : 1, 3, K_OP);
 	if(!P::copyable) cat = 2;
 	int chain = ctx.ex.choose(4, 4, K_OP);
@@ -169,6 +186,7 @@ static void testOne(Ctx & ctx, const std::string & nm0) {
 	}
 	checkLedgerErrors(ctx, "after destruction");
 	if(ledger().liveAll() != 0 && !ctx.failed) ctx.fail("held-object-not-destroyed-exactly-once", nm + ": objects still alive after every AnyData was destroyed: " + ledger().describeLive());
+	if(g_poolNew != g_poolDelete && !ctx.failed) ctx.fail("allocation-functions-mismatched", fmt("%s: the held type's operator new ran %ld times, its operator delete %ld times", nm.c_str(), g_poolNew, g_poolDelete));
 	ctx.obs(hashStr(nm));
 }
 
@@ -226,6 +244,7 @@ static void regCap() {
 	Reg<Cap, PMoveOnly, 16, Eff + 32, 8>::add();
 	Reg<Cap, PShared, 24, Eff + 32, 8>::add();
 	Reg<Cap, PSelfRef, 16, Eff + 32, 8>::add();
+	Reg<Cap, PPooled, Eff - 8, Eff + 24, 8>::add();
 	regThrowing<Cap, 8>(); regThrowing<Cap, Eff - 1>(); regThrowing<Cap, Eff>(); regThrowing<Cap, Eff + 1>(); regThrowing<Cap, Eff + 9>();
 }
 
